@@ -63,11 +63,11 @@ PROPS = {
               rule='a case is a metadata value (title bytes / Unix day + second of day / language code / presence combination) on a muxer run, each also compared with the metadata-free run of the same history; non-trivial when it differs from the empty metadata',
               assumptions=['dates are judged for 1970-01-01 .. 9999-12-31; larger creation times only for termination (C12)', 'the closed-form Civil() of Meta.tla is itself checked by TLC against the counting definition (MCMeta)', 'malformed language codes are not judged (only absence of panics)']),
 
-    'C02': _p(lambda t: ['layout', 'frag', 'fraginit', 'meta'],
+    'C02': _p(lambda t: ['layout', 'frag', 'fraginit', 'meta', 'av', 'bound', 'boundfrag'],
               rule='a case is an emitted byte stream (progressive file, init segment, media segment) with a distinct configuration/history; every one is non-trivial'),
     'C07': _p(lambda t: ['layout', 'fraginit', 'fncfg', 'fnobu', 'codeccfg'],
               rule='a case is a distinct first key frame / builder parameter-set tuple / configuration (codec x dimensions x audio rate x channels); non-trivial when it is accepted and a file or init segment is produced'),
-    'C19': _p(lambda t: ['layout', 'fraginit', 'frag'],
+    'C19': _p(lambda t: ['layout', 'fraginit', 'frag', 'bound', 'boundfrag'],
               rule='a case is an emitted byte stream with a distinct configuration (codec x audio x metadata x layout x dimensions / init segment / media segment); every one is non-trivial'),
 
     'C14': _p(lambda t: ['fn14', 'adts'],
@@ -94,11 +94,11 @@ PROPS = {
     'C06': _p(lambda t: ['finish', 'av', 'contract', 'sink'],
               rule='a case is a history with >= 1 finish attempt and >= 1 other call'),
 
-    'C01': _p(lambda t: ['av'],
+    'C01': _p(lambda t: ['av', 'adts', 'layout', 'metalayout'],
               rule='a case is a (configuration, call sequence) pair enumerated by TLC from MCMuxide (scenario av) or drawn by the seeded generator; distinct by input hash; non-trivial when some track holds >= 2 accepted samples'),
     'C03': _p(lambda t: ['av'] if t == 'quick' else ['av', 'long'],
               rule='as C01: distinct (configuration, call sequence) pairs with >= 2 accepted samples in some track'),
-    'C08': _p(lambda t: ['av'],
+    'C08': _p(lambda t: ['av', 'metalayout'],
               rule='every case is executed with fast start on and off and the two outputs compared; non-trivial when some track holds >= 2 samples'),
     'C09': _p(lambda t: ['av', 'reject'],
               rule='distinct (configuration, call sequence) pairs with >= 1 accepted sample in each track'),
